@@ -218,14 +218,29 @@ func (a Complex) M__pow__(other, modulus Object) (Object, error) {
 		return NotImplemented, nil
 	}
 	if b, ok := convertToComplex(other); ok {
-		return Complex(cmplx.Pow(complex128(a), complex128(b))), nil
+		return complexPow(complex128(a), complex128(b))
 	}
 	return NotImplemented, nil
 }
 
+// complexPow computes a**b. cmplx.Pow panics for a zero base and a
+// NaN exponent, so deal with the zero base here as CPython does.
+func complexPow(a, b complex128) (Object, error) {
+	if b == 0 {
+		return Complex(1), nil
+	}
+	if a == 0 {
+		if real(b) < 0 || imag(b) != 0 {
+			return nil, ExceptionNewf(ZeroDivisionError, "0.0 to a negative or complex power")
+		}
+		return Complex(0), nil
+	}
+	return Complex(cmplx.Pow(a, b)), nil
+}
+
 func (a Complex) M__rpow__(other Object) (Object, error) {
 	if b, ok := convertToComplex(other); ok {
-		return Complex(cmplx.Pow(complex128(b), complex128(a))), nil
+		return complexPow(complex128(b), complex128(a))
 	}
 	return NotImplemented, nil
 }
